@@ -1083,6 +1083,10 @@ bus_connection_get_unix_groups  (DBusConnection   *connection,
         {
           _dbus_verbose ("Did not get any groups for UID %lu\n",
                          uid);
+          /* _dbus_unix_groups_from_uid() cannot tell us whether this was
+           * out of memory or an unknown uid; callers treat both as a
+           * failure that can be retried */
+          BUS_SET_OOM (error);
           return FALSE;
         }
       else
